@@ -6,32 +6,33 @@
    its compound instructions) together with its run.  The instruction alphabet, initial
    stacks and environments of a *family* are supplied by a generated wrapper module. *)
 EXTENDS MichSem
-CONSTANTS Alphabet,     \* set of instructions (compound ones carry their bodies)
-          InitStacks,   \* set of initial stacks of typed slots
-          Envs,         \* set of environments (records: instruction name -> value)
-          MaxDepth, MaxStack, Fuel
+CONSTANTS Fams,            \* names of the instruction families explored in this run
+          AlphabetOf(_),   \* family -> set of instructions (compound ones carry their bodies)
+          InitsOf(_),      \* family -> set of initial stacks of typed slots
+          EnvsOf(_),       \* family -> set of environments (records: instruction name -> value)
+          DepthOf(_), MaxStackOf(_), Fuel
 
-VARIABLES init, env, stack, tstack, status, failv, hist
-vars == <<init, env, stack, tstack, status, failv, hist>>
+VARIABLES fam, init, env, stack, tstack, status, failv, hist
+vars == <<fam, init, env, stack, tstack, status, failv, hist>>
 
-Init == /\ init \in InitStacks /\ env \in Envs
+Init == /\ fam \in Fams /\ init \in InitsOf(fam) /\ env \in EnvsOf(fam)
         /\ stack = init /\ tstack = TypesOf(init)
         /\ status = "running" /\ failv = <<>> /\ hist = <<>>
 
 Exec(i) ==
-  /\ status = "running" /\ Len(hist) < MaxDepth
+  /\ status = "running" /\ Len(hist) < DepthOf(fam)
   /\ LET ty == Ty(i, tstack) IN
        /\ ~IsIll(ty)
-       /\ IsFailed(ty) \/ Len(ty) <= MaxStack
+       /\ IsFailed(ty) \/ Len(ty) <= MaxStackOf(fam)
        /\ LET r == Run(i, stack, env, Fuel) IN
-            /\ r # Err("fuel")                       \* bounded model: runs that exhaust the loop fuel are not behaviours
+            /\ r # Err("fuel") /\ r # Err("native") /\ r # Err("symbolic")     \* bounded model: runs that exhaust the loop fuel or the native integer range are not behaviours
             /\ status' = (IF r[1] = "ok" THEN "running" ELSE r[1])
             /\ stack' = (IF r[1] = "ok" THEN r[2] ELSE stack)
             /\ tstack' = (IF r[1] = "ok" THEN ty ELSE tstack)
             /\ failv' = (IF r[1] = "ok" THEN <<>> ELSE r[2])
             /\ hist' = Append(hist, i)
-  /\ UNCHANGED <<init, env>>
-Next == \E i \in Alphabet : Exec(i)
+  /\ UNCHANGED <<fam, init, env>>
+Next == \E i \in AlphabetOf(fam) : Exec(i)
 Spec == Init /\ [][Next]_vars
 
 \* C02 on the reference semantics: every slot has its static type
